@@ -48,7 +48,7 @@ def mutate(rng, doc):
 def eval_doc(args):
     ver, doc = args
     import xmlschema
-    s = _S.get(ver) or _S.setdefault(ver, _cls(ver)(docgen.SCHEMA))
+    s = _S.get(ver) or _S.setdefault(ver, _cls(ver)(docgen.schema_for(ver)))
     bad = []
     for name, f in (('is_valid', lambda d: s.is_valid(d)), ('iter_errors', lambda d: list(s.iter_errors(d))), ('decode_lax', lambda d: s.decode(d, validation='lax')),
                     ('decode_strict', lambda d: s.decode(d)), ('resource', lambda d: xmlschema.XMLResource(d)), ('lazy', lambda d: list(s.iter_errors(xmlschema.XMLResource(d, lazy=True)))),
